@@ -537,3 +537,5 @@ end Agd.BillStat
 #print axioms Agd.Tie.TrC16.upload_sends_all
 #print axioms Agd.Tie.TrC16.upload_send_fails
 #print axioms Agd.Tie.TrC16.upload_nil_record_skipped
+#print axioms Agd.Tie.TrC16.recordQueryInfo_bills
+#print axioms Agd.Tie.TrC16.billOf_tr
